@@ -1,5 +1,5 @@
 from itertools import product
-from numpy import cos, pi, log, exp, mean, sqrt, tanh
+from numpy import cos, pi, log, exp, mean, std, sqrt, tanh
 from numpy import array, ndarray, linspace, zeros, atleast_1d
 from scipy.integrate import simpson, quad
 from scipy.optimize import minimize
@@ -23,6 +23,12 @@ class UnimodalPdf(DensityEstimator):
     def __init__(self, sample: ndarray):
         self.sample = array(sample).flatten()
         self.n_samps = self.sample.size
+        # The model is fitted to the standardised sample, so that the moment-based
+        # guesses and the tolerances of the optimiser do not depend on the location
+        # and scale of the data. The result is converted back to data units below.
+        self.loc = mean(self.sample)
+        self.scale = std(self.sample)
+        self.std_sample = (self.sample - self.loc) / self.scale
 
         # chebyshev quadrature weights and axes
         self.sd = 0.2
@@ -35,7 +41,7 @@ class UnimodalPdf(DensityEstimator):
         # first minimise based on a slice of the sample, if it's large enough
         self.cutoff = 2000
         self.skip = max(self.n_samps // self.cutoff, 1)
-        self.fitted_samples = self.sample[:: self.skip]
+        self.fitted_samples = self.std_sample[:: self.skip]
 
         # makes guesses based on sample moments
         guesses, self.bounds = self.generate_guesses_and_bounds()
@@ -45,23 +51,35 @@ class UnimodalPdf(DensityEstimator):
 
         # minimise based on the best guess
         opt_method = "Nelder-Mead"
+        opt_options = {"xatol": 1e-6, "fatol": 1e-8, "maxiter": 3000}
         self.min_result = minimize(
-            fun=cost_func, x0=guesses[0], bounds=self.bounds, method=opt_method
+            fun=cost_func,
+            x0=guesses[0],
+            bounds=self.bounds,
+            method=opt_method,
+            options=opt_options,
         )
         self.MAP = self.min_result.x
         self.mode = self.MAP[0]
 
         # if we were using a reduced sample, use full sample
         if self.skip > 1:
-            self.fitted_samples = self.sample
+            self.fitted_samples = self.std_sample
             self.min_result = minimize(
                 fun=cost_func,
                 x0=self.MAP,
                 bounds=self.bounds,
                 method=opt_method,
+                options=opt_options,
             )
             self.MAP = self.min_result.x
             self.mode = self.MAP[0]
+
+        # convert the location and width parameters back to data units
+        self.MAP = array(self.MAP, dtype=float)
+        self.MAP[0] = self.loc + self.scale * self.MAP[0]
+        self.MAP[1] = self.scale * self.MAP[1]
+        self.mode = self.MAP[0]
 
         # normalising constant for the MAP estimate curve
         self.map_lognorm = log(self.norm(self.MAP))
@@ -73,7 +91,7 @@ class UnimodalPdf(DensityEstimator):
 
     def generate_guesses_and_bounds(self) -> tuple[list, list]:
         mu, sigma, skew = self.sample_moments(self.fitted_samples)
-        lwr, upr = sample_hdi(sample=self.sample, fraction=0.5)
+        lwr, upr = sample_hdi(sample=self.std_sample, fraction=0.5)
 
         bounds = [
             (lwr, upr),
